@@ -242,71 +242,72 @@ func ruleCL6(c *Ctx) *rule {
 		if !s.cond["opt:Clean=true"] {
 			continue
 		}
-		f := s.fn
-		for _, b := range f.Blocks {
-			iff, ok := lastInstr(b).(*ssa.If)
-			if !ok {
-				continue
-			}
-			cond, _ := normCond(iff.Cond, true)
-			sl := c.newSlicer()
-			sl.depth = 2
-			res := sl.run(cond)
-			if !res.hasField("file.SpokFile.Dir") {
-				continue
-			}
-			// only conditions computed from a containment primitive applied to the root: Rel(root, p), IsLocal, HasPrefix(p, <root...>)
-			relevant := false
-			for _, rc := range append(append([]*ssa.Call{}, res.calls["path/filepath.Rel"]...), res.calls["path/filepath.IsLocal"]...) {
-				as := c.newSlicer()
-				as.depth = 1
-				if as.run(rc.Common().Args...).hasField("file.SpokFile.Dir") || calleeName(rc.Common()) == "path/filepath.IsLocal" {
-					relevant = true
+		for _, f := range closuresOf(s.fn) {
+			for _, b := range f.Blocks {
+				iff, ok := lastInstr(b).(*ssa.If)
+				if !ok {
+					continue
 				}
-			}
-			for _, hp := range res.calls["strings.HasPrefix"] {
-				as := c.newSlicer()
-				as.depth = 1
-				if as.run(hp.Common().Args[1]).hasField("file.SpokFile.Dir") {
-					relevant = true
+				cond, _ := normCond(iff.Cond, true)
+				sl := c.newSlicer()
+				sl.depth = 2
+				res := sl.run(cond)
+				if !res.hasField("file.SpokFile.Dir") {
+					continue
 				}
-			}
-			if !relevant {
-				continue
-			}
-			n++
-			key := fmt.Sprintf("%s containment-predicate#%d", fname(f), n)
-			hasRel := res.hasCall("path/filepath.Rel") || res.hasCall("path/filepath.IsLocal")
-			badPrefix := ""
-			for _, hp := range res.calls["strings.HasPrefix"] {
-				ps := c.newSlicer()
-				ps.depth = 1
-				pres := ps.run(hp.Common().Args[1])
-				if !pres.hasField("file.SpokFile.Dir") {
-					continue // a prefix test on something else (e.g. on the relative path computed by Rel)
-				}
-				sep := false
-				for _, cst := range pres.consts {
-					if s, ok := constString(cst); ok && (strings.HasSuffix(s, "/") || strings.HasSuffix(s, "\\")) {
-						sep = true
-					}
-					if n2, ok := constInt(cst); ok && (n2 == '/' || n2 == '\\') {
-						sep = true
+				// only conditions computed from a containment primitive applied to the root: Rel(root, p), IsLocal, HasPrefix(p, <root...>)
+				relevant := false
+				for _, rc := range append(append([]*ssa.Call{}, res.calls["path/filepath.Rel"]...), res.calls["path/filepath.IsLocal"]...) {
+					as := c.newSlicer()
+					as.depth = 1
+					if as.run(rc.Common().Args...).hasField("file.SpokFile.Dir") || calleeName(rc.Common()) == "path/filepath.IsLocal" {
+						relevant = true
 					}
 				}
-				if !sep && !hasRel {
-					badPrefix = c.ipos(hp)
+				for _, hp := range res.calls["strings.HasPrefix"] {
+					as := c.newSlicer()
+					as.depth = 1
+					if as.run(hp.Common().Args[1]).hasField("file.SpokFile.Dir") {
+						relevant = true
+					}
 				}
-			}
-			switch {
-			case badPrefix != "":
-				r.bad(key, badPrefix, "containment is decided by a bare textual prefix (no path separator, no filepath.Rel): a sibling directory sharing the project's name as prefix passes the test")
-			case hasRel:
-				r.ok(key, c.bpos(b), "based on filepath.Rel / filepath.IsLocal")
-			case len(res.calls["strings.HasPrefix"]) > 0:
-				r.ok(key, c.bpos(b), "prefix test with a trailing separator")
-			default:
-				r.undecided(key, c.bpos(b), "the containment test is of a form the checker does not model")
+				if !relevant {
+					continue
+				}
+				n++
+				key := fmt.Sprintf("%s containment-predicate#%d", fname(f), n)
+				hasRel := res.hasCall("path/filepath.Rel") || res.hasCall("path/filepath.IsLocal")
+				badPrefix := ""
+				for _, hp := range res.calls["strings.HasPrefix"] {
+					ps := c.newSlicer()
+					ps.depth = 1
+					pres := ps.run(hp.Common().Args[1])
+					if !pres.hasField("file.SpokFile.Dir") {
+						continue // a prefix test on something else (e.g. on the relative path computed by Rel)
+					}
+					sep := false
+					for _, cst := range pres.consts {
+						if s, ok := constString(cst); ok && (strings.HasSuffix(s, "/") || strings.HasSuffix(s, "\\")) {
+							sep = true
+						}
+						if n2, ok := constInt(cst); ok && (n2 == '/' || n2 == '\\') {
+							sep = true
+						}
+					}
+					if !sep && !hasRel {
+						badPrefix = c.ipos(hp)
+					}
+				}
+				switch {
+				case badPrefix != "":
+					r.bad(key, badPrefix, "containment is decided by a bare textual prefix (no path separator, no filepath.Rel): a sibling directory sharing the project's name as prefix passes the test")
+				case hasRel:
+					r.ok(key, c.bpos(b), "based on filepath.Rel / filepath.IsLocal")
+				case len(res.calls["strings.HasPrefix"]) > 0:
+					r.ok(key, c.bpos(b), "prefix test with a trailing separator")
+				default:
+					r.undecided(key, c.bpos(b), "the containment test is of a form the checker does not model")
+				}
 			}
 		}
 	}
@@ -653,13 +654,12 @@ func ruleFD6(c *Ctx) *rule {
 			if !l.body[b] {
 				continue
 			}
-			for _, s := range b.Succs {
+			for i, s := range b.Succs {
 				if l.body[s] || b == l.header {
 					continue
 				}
-				// leaving from the body: must not come back to the walk (only returns)
-				rs := reach(s, nil, nil)
-				if rs[fw.loop.header] {
+				// leaving from the body: must not come back to the walk (only returns), on any feasible path
+				if rs := reach(s, nil, nil); rs[fw.loop.header] && feasiblyReaches(fw.fi, edge{b, i}, fw.loop.header) {
 					bad = "the loop over the entries is left at " + c.bpos(b) + " without returning: the remaining entries of the directory are never examined"
 				}
 			}
@@ -745,36 +745,61 @@ func ruleST7(c *Ctx) *rule {
 			if !rl.loop.body[pred] {
 				continue
 			}
-			cl, ok := p.Edges[i].(*ssa.Call)
-			if !ok {
-				continue
-			}
-			n++
-			key := fmt.Sprintf("%s appended-result#%d", fname(rl.fn), n)
-			// element = load of an Alloc (composite literal / variable)
-			ss := c.newSlicer()
-			ss.depth = 0
-			res := ss.run(cl.Call.Args[1:]...)
-			bad := ""
-			for _, v := range res.order {
-				a, ok := v.(*ssa.Alloc)
-				if !ok || !isNamed(a.Type(), pkgPath("task"), "Result") {
-					continue
+			for _, cl := range appendLeaves(p.Edges[i], rl.loop) {
+				n++
+				key := fmt.Sprintf("%s appended-result#%d", fname(rl.fn), n)
+				// element = load of an Alloc (composite literal / variable)
+				ss := c.newSlicer()
+				ss.depth = 0
+				res := ss.run(cl.Call.Args[1:]...)
+				bad := ""
+				for _, v := range res.order {
+					a, ok := v.(*ssa.Alloc)
+					if !ok || !isNamed(a.Type(), pkgPath("task"), "Result") {
+						continue
+					}
+					if rl.loop.body[a.Block()] {
+						continue
+					}
+					// allocated outside: every field must be stored in the loop on every way round — not attempted
+					bad = "the result struct " + a.Comment + " is allocated outside the loop and reused: fields not re-assigned in an iteration keep the previous task's values"
 				}
-				if rl.loop.body[a.Block()] {
-					continue
+				if bad == "" {
+					r.ok(key, c.ipos(cl), "a fresh value per iteration")
+				} else {
+					r.bad(key, c.ipos(cl), bad)
 				}
-				// allocated outside: every field must be stored in the loop on every way round — not attempted
-				bad = "the result struct " + a.Comment + " is allocated outside the loop and reused: fields not re-assigned in an iteration keep the previous task's values"
-			}
-			if bad == "" {
-				r.ok(key, c.ipos(cl), "a fresh value per iteration")
-			} else {
-				r.bad(key, c.ipos(cl), bad)
 			}
 		}
 	}
 	return r
+}
+
+// appendLeaves: the append calls a loop-carried value is made of (looking through merges inside the loop).
+func appendLeaves(v ssa.Value, l *loopInfo) []*ssa.Call {
+	var out []*ssa.Call
+	seen := map[ssa.Value]bool{}
+	var walk func(v ssa.Value)
+	walk = func(v ssa.Value) {
+		if seen[v] {
+			return
+		}
+		seen[v] = true
+		switch x := v.(type) {
+		case *ssa.Phi:
+			if l.body[x.Block()] && x.Block() != l.header {
+				for _, e := range x.Edges {
+					walk(e)
+				}
+			}
+		case *ssa.Call:
+			if bi, ok := x.Call.Value.(*ssa.Builtin); ok && bi.Name() == "append" {
+				out = append(out, x)
+			}
+		}
+	}
+	walk(v)
+	return out
 }
 
 // ---- FM4 / FM5 / docstring guard -----------------------------------------------------------------------------------------------------------
